@@ -9,6 +9,7 @@ package ignorefiles
 //@   sweep
 //@   ghost $line String = ""
 //@   replay ignoreLine: line=$line
+//@   at-call append C03.readrules.rule: lineHasRule($line) && a1.val == lineRuleVal($line) && a1.negated == lineNegated($line) && a1.regex == nil
 //@   invariant loop1 C19.ruleindex: currentRuleIndex == len(rules) - 1
 //@   invariant loop2 C19.ruleindex2: i <= currentRuleIndex && currentRuleIndex == len(rules) - 1
 
@@ -39,6 +40,8 @@ package ignorefiles
 
 //@ macro ruleM(R, I, P): ruleMatchF(R.rules[I].val, R.rules[I].regex, P)
 //@ func (*Ruleset).Excludes -> (res, err)
+//@   replay packIgnore:
+//@   pure
 //@   sweep
 //@   ghost $iter Int = 0
 //@   ghost $last Int = -1
@@ -51,6 +54,7 @@ package ignorefiles
 //@   ensures C03.excludes.last: r != nil ==> $last >= -1 && $last < len(r.rules) && ($last >= 0 ==> ruleM(r, $last, path))
 //@   ensures C03.excludes.nolater: r != nil && $last < anyIndex && anyIndex < len(r.rules) ==> !ruleM(r, anyIndex, path)
 //@   ensures C03.excludes.lastwins: r != nil ==> res.Excluded == ($last >= 0 && !r.rules[$last].negated)
+//@   ensures-local C03.excludes.dominating-sound: r != nil && res.Dominating ==> hasSuffix(r.rules[$last].val, "**")
 //@   ensures C03.excludes.dominating: r != nil ==> res.Dominating == (res.Excluded && !r.rules[$last].negationsAfter)
 
 //@ func ParseIgnoreFileContent -> (rs, err)
